@@ -229,6 +229,10 @@ pub struct ReplayFile {
     pub digest: u64,
 }
 
+/// Which build configuration of vek (and of the simulator) this binary is: `./check --replay`
+/// picks the binary by this field of the replay file.
+pub const BUILD_PROFILE: &str = if cfg!(debug_assertions) { "debug-assertions" } else { "release" };
+
 pub fn write_replay(path: &str, seed: u64, run: u64, plan: &Plan, o: &Outcome, minimised: bool, original_len: usize, tried: u32) -> std::io::Result<()> {
     let v = o.violation.as_ref().expect("replay of a non-violation");
     let mut pairs = vec![("property", J::s("C18")), ("seed", J::i(seed as i64)), ("run", J::i(run as i64))];
@@ -248,6 +252,7 @@ pub fn write_replay(path: &str, seed: u64, run: u64, plan: &Plan, o: &Outcome, m
     pairs.push(("original_len", J::i(original_len as i64)));
     pairs.push(("candidates_tried", J::i(tried)));
     pairs.push(("digest", J::s(format!("{:016x}", o.digest))));
+    pairs.push(("build_profile", J::s(BUILD_PROFILE)));
     std::fs::write(path, J::obj(pairs).pretty())
 }
 
